@@ -53,7 +53,7 @@ func (e *Exec) elemAddr(sl Val, idx string, elemT types.Type) *Addr {
 		e.S.declareFun(fn, []string{"Int", "Int"}, "Int")
 		return &Addr{Sub: app(sym(fn), app("sl-base", sl.T), idx), Ty: ety}
 	}
-	name := elemHeapName(ety.Sort())
+	name := elemHeapName(ety)
 	e.regHeap(name, "(Array Int (Array Int "+ety.Sort()+"))")
 	e.ensureSortDecl(ety)
 	// slices always start at offset 0 of their backing object (sub-slicing copies, see execSlice):
@@ -69,7 +69,7 @@ func (e *Exec) arrElemAddr(base string, idx string, elemT types.Type) *Addr {
 		e.S.declareFun(fn, []string{"Int", "Int"}, "Int")
 		return &Addr{Sub: app(sym(fn), base, idx), Ty: ety}
 	}
-	name := elemHeapName(ety.Sort())
+	name := elemHeapName(ety)
 	e.regHeap(name, "(Array Int (Array Int "+ety.Sort()+"))")
 	e.ensureSortDecl(ety)
 	return &Addr{Heap: name, Obj: base, Idx: idx, Ty: ety}
@@ -84,7 +84,7 @@ func (e *Exec) cellAddr(ref string, pointee types.Type) *Addr {
 	if _, isArr := pointee.Underlying().(*types.Array); isArr {
 		return &Addr{Sub: ref, Ty: pty}
 	}
-	name := cellHeapName(pty.Sort())
+	name := cellHeapName(pty)
 	e.regHeap(name, "(Array Int "+pty.Sort()+")")
 	e.ensureSortDecl(pty)
 	return &Addr{Heap: name, Obj: ref, Ty: pty}
@@ -162,8 +162,8 @@ func (e *Exec) storeStruct(st *State, ref string, t types.Type, v Val) {
 func (e *Exec) allocRef(st *State, hint string) string {
 	r := e.S.declare(e.S.freshName("new."+hint), "Int")
 	top := e.get(st, topVar)
-	e.S.assume(app(">", r, top))
-	e.S.assume(app(">", r, "0"))
+	e.assume(app(">", r, top))
+	e.assume(app(">", r, "0"))
 	e.set(st, topVar, r)
 	return r
 }
@@ -182,26 +182,26 @@ func (e *Exec) zeroInit(st *State, ref string, t types.Type) {
 				continue
 			}
 			cur := e.load(st, fa)
-			e.S.assume(eq(cur.T, fa.Ty.Zero(e.S)))
+			e.assume(eq(cur.T, fa.Ty.Zero(e.S)))
 		}
 	case *types.Array:
 		ety := tyOfGo(u.Elem())
 		if isStructValType(u.Elem()) {
 			return
 		}
-		name := elemHeapName(ety.Sort())
+		name := elemHeapName(ety)
 		e.regHeap(name, "(Array Int (Array Int "+ety.Sort()+"))")
 		e.ensureSortDecl(ety)
 		if u.Len() <= 16 {
 			h := e.get(st, name)
 			for i := int64(0); i < u.Len(); i++ {
-				e.S.assume(eq(app("select", app("select", h, ref), smtInt(i)), ety.Zero(e.S)))
+				e.assume(eq(app("select", app("select", h, ref), smtInt(i)), ety.Zero(e.S)))
 			}
 		}
 	default:
 		a := e.cellAddr(ref, t)
 		cur := e.load(st, a)
-		e.S.assume(eq(cur.T, a.Ty.Zero(e.S)))
+		e.assume(eq(cur.T, a.Ty.Zero(e.S)))
 	}
 }
 
@@ -209,7 +209,7 @@ func (e *Exec) zeroInit(st *State, ref string, t types.Type) {
 func (e *Exec) mapLookup(st *State, m, k string, mt *types.Map) (Val, string) {
 	kty, vty := tyOfGo(mt.Key()), tyOfGo(mt.Elem())
 	e.ensureSortDecl(vty)
-	pn, vn := mapPHeapName(kty.Sort(), vty.Sort()), mapVHeapName(kty.Sort(), vty.Sort())
+	pn, vn := mapPHeapName(kty, vty), mapVHeapName(kty, vty)
 	e.regHeap(pn, "(Array Int (Array "+kty.Sort()+" Bool))")
 	e.regHeap(vn, "(Array Int (Array "+kty.Sort()+" "+vty.Sort()+"))")
 	p := app("select", app("select", e.get(st, pn), m), k)
@@ -226,7 +226,7 @@ func (e *Exec) mapLen(st *State, m string) string {
 func (e *Exec) mapUpdate(st *State, m, k string, v Val, mt *types.Map) {
 	kty, vty := tyOfGo(mt.Key()), tyOfGo(mt.Elem())
 	e.ensureSortDecl(vty)
-	pn, vn := mapPHeapName(kty.Sort(), vty.Sort()), mapVHeapName(kty.Sort(), vty.Sort())
+	pn, vn := mapPHeapName(kty, vty), mapVHeapName(kty, vty)
 	e.regHeap(pn, "(Array Int (Array "+kty.Sort()+" Bool))")
 	e.regHeap(vn, "(Array Int (Array "+kty.Sort()+" "+vty.Sort()+"))")
 	e.regHeap(mapLHeapName(), "(Array Int Int)")
@@ -239,7 +239,7 @@ func (e *Exec) mapUpdate(st *State, m, k string, v Val, mt *types.Map) {
 
 func (e *Exec) mapDelete(st *State, m, k string, mt *types.Map) {
 	kty, vty := tyOfGo(mt.Key()), tyOfGo(mt.Elem())
-	pn := mapPHeapName(kty.Sort(), vty.Sort())
+	pn := mapPHeapName(kty, vty)
 	e.regHeap(pn, "(Array Int (Array "+kty.Sort()+" Bool))")
 	e.regHeap(mapLHeapName(), "(Array Int Int)")
 	P, L := e.get(st, pn), e.get(st, mapLHeapName())
@@ -266,7 +266,7 @@ func (e *Exec) makeIface(v Val, t types.Type) Val {
 	key := "boxax:" + sk + ":" + v.T
 	if !e.boxDecl[key] {
 		e.boxDecl[key] = true
-		e.S.assume(eq(app(sym("unbox."+sk), b), v.T))
+		e.assume(eq(app(sym("unbox."+sk), b), v.T))
 	}
 	return Val{T: app("mk-iface", tag, b), Ty: tyIface}
 }
@@ -297,12 +297,12 @@ func (e *Exec) globalAddr(g *ssa.Global) Val {
 	key := "globax:" + name
 	if !e.boxDecl[key] {
 		e.boxDecl[key] = true
-		e.S.assume(app(">", r, "0"))
-		e.S.assume(app("<=", r, "$top"))
+		e.assume(app(">", r, "0"))
+		e.assume(app("<=", r, "$top"))
 		// distinct globals are distinct objects
 		for k := range e.boxDecl {
 			if strings.HasPrefix(k, "globax:") && k != key {
-				e.S.assume(not(eq(r, sym(strings.TrimPrefix(k, "globax:")))))
+				e.assume(not(eq(r, sym(strings.TrimPrefix(k, "globax:")))))
 			}
 		}
 	}
